@@ -146,6 +146,21 @@ fn check_server(size: usize, cutoff_1h: bool, deny_ignores: bool, allow_ignores:
     );
     cfg.rate_limiting_cache_size = size;
     cfg.rate_limiting_cutoff = if cutoff_1h { Duration::from_secs(3600) } else { Duration::ZERO };
+    // the same settings as the daemon gets them: a [[server]] table through the daemon's deserialiser and its
+    // conversion for the protocol layer
+    let text = format!(
+        "listen = \"127.0.0.1:123\"\nrate-limiting-cache-size = {size}\nrate-limiting-cutoff-ms = {}\naccept-ntp-versions = [4]\n[denylist]\nfilter = [\"10.0.0.0/8\"]\naction = \"{}\"\n[allowlist]\nfilter = [\"10.0.0.0/7\", \"192.168.0.0/16\", \"2001:db8::/32\"]\naction = \"{}\"\n",
+        if cutoff_1h { 3_600_000 } else { 0 },
+        if deny_ignores { "ignore" } else { "deny" },
+        if allow_ignores { "ignore" } else { "deny" },
+    );
+    match toml::from_str::<ntpd::verif_hook::DaemonServerConfig>(&text) {
+        Ok(d) => {
+            cfg = d.into();
+            labels.add("config-through-daemon");
+        }
+        Err(e) => return Outcome::fail("harness/server-table-rejected", format!("{e}: {text}")),
+    }
     let mut server = w_srv::server(cfg);
     // model: slot -> last address that passed the lists
     let mut slots: Vec<Option<IpAddr>> = vec![None; size];
@@ -191,6 +206,7 @@ fn check_server(size: usize, cutoff_1h: bool, deny_ignores: bool, allow_ignores:
                 let want_limited = match slot {
                     None => false,
                     Some(i) => {
+                        ensure!(i < slots.len(), "cache-larger-than-configured", "the server's cache has a slot {i} although the configured size is {size}: {}", ctx());
                         let prev = slots[i].replace(ip);
                         cutoff_1h && prev == Some(ip)
                     }
